@@ -885,6 +885,7 @@ Definition src_split (D : dendrogram) (n1 n2 : nat) :=
                 'near-tie runs dropped) and IEEE-rounding model (bit for bit) on graphs n <= 10, Louvain hierarchies against the '
                 'model run on the recorded Louvain label vectors (exact). distinct = hash of (entry point, arguments); '
                 'non-trivial = at least one edge')
+    ctx.rule += ' Source terms: the statements regenerated from split_dendrogram are executed inside Coq on the split cases and compared with the implementation (source_terms_evaluated).'
     ctx.assumptions = ['matrices have no explicitly stored zeros and non-negative weights',
                        'CPython dict insertion order (cluster_sizes) as modelled; set iteration order is irrelevant to the result',
                        'sums of the small integer / dyadic weights used are exact in double precision',
